@@ -172,3 +172,75 @@ def corrupt(chk):
         return 0 if bad == 0 else 1
     finally:
         shutil.rmtree(w, ignore_errors=True)
+
+
+def findings(chk):
+    """Genuineness of every entry of known_findings.json: its committed scenario is run against the real code
+       (a) at the commit before the repair (fixed entries; scratch worktree under /tmp, removed afterwards) or on the
+           current tree (open entries), with NO deviation accepted: the listed properties must be violated;
+       (b) on the current tree with the recorded open deviations: fixed entries must be silent (no VIOLATION and no
+           KNOWN-FINDING), open entries must report exactly a KNOWN-FINDING."""
+    import subprocess
+    import tempfile
+    fs = chk.findings()
+    bad = 0
+    w = chk.mkwork("selftest-findings")
+    tmp = tempfile.mkdtemp(prefix="vt-findings-")
+    try:
+        chk.build()
+        opn = chk.open_ids()
+        chk.write_trace_cfg(w, opn)
+        os.rename(os.path.join(w, "TraceRun.cfg"), os.path.join(w, "TraceOpen.cfg"))
+        chk.write_trace_cfg(w, [])
+        os.rename(os.path.join(w, "TraceRun.cfg"), os.path.join(w, "TraceNone.cfg"))
+        # a private copy of the harness whose libmctp dependency points at the scratch worktree
+        h2 = os.path.join(tmp, "harness")
+        shutil.copytree(os.path.join(chk.ROOT, "harness"), h2, ignore=shutil.ignore_patterns("target"))
+        wt = os.path.join(tmp, "wt")
+        toml = open(os.path.join(h2, "Cargo.toml")).read().replace('path = "/repo"', 'path = "%s"' % wt)
+        open(os.path.join(h2, "Cargo.toml"), "w").write(toml)
+        for f in fs:
+            scen = os.path.join(chk.ROOT, f["scenario"])
+            # (b) current tree, recorded deviations
+            tr = chk.run_scenario(w, scen, "cur-" + f["id"])
+            s = chk.validate(w, tr, cfg="TraceOpen.cfg")
+            viol = [p for p in chk.PROPS if s["first"][p]]
+            kn = sorted({k["prop"] for k in s["known"] if k["dev"] == f["id"]})
+            if f["status"] == "fixed":
+                ok_b = not viol and not s["known"]
+            else:
+                ok_b = not viol and kn == sorted(f["properties"])
+            # (a) the defect is real
+            if f["status"] == "fixed":
+                subprocess.run(["git", "-C", "/repo", "worktree", "remove", "--force", wt], stdout=subprocess.DEVNULL, stderr=subprocess.DEVNULL)
+                r = subprocess.run(["git", "-C", "/repo", "worktree", "add", "--detach", wt, f["commit"] + "~1"],
+                                   stdout=subprocess.PIPE, stderr=subprocess.STDOUT, text=True)
+                if r.returncode != 0:
+                    print("%s: cannot create scratch worktree: %s" % (f["id"], r.stdout[-300:]))
+                    bad += 1
+                    continue
+                r = subprocess.run(["cargo", "build", "--release", "--offline"], cwd=h2, stdout=subprocess.PIPE, stderr=subprocess.STDOUT, text=True)
+                if r.returncode != 0:
+                    print("%s: harness does not build against %s~1: %s" % (f["id"], f["commit"], r.stdout[-600:]))
+                    bad += 1
+                    continue
+                tr2 = os.path.join(w, "old-%s.ndjson" % f["id"])
+                subprocess.run([os.path.join(h2, "target", "release", "mctp-verif-harness"), "run", scen, tr2], check=True,
+                               stdout=subprocess.DEVNULL, stderr=subprocess.DEVNULL)
+                subprocess.run(["git", "-C", "/repo", "worktree", "remove", "--force", wt], stdout=subprocess.DEVNULL, stderr=subprocess.DEVNULL)
+            else:
+                tr2 = tr
+            s2 = chk.validate(w, tr2, cfg="TraceNone.cfg")
+            viol2 = [p for p in chk.PROPS if s2["first"][p]]
+            ok_a = all(p in viol2 for p in f["properties"])
+            print("%-16s %-5s before repair / no deviation accepted: violates %s (listed %s) %s | current tree: violations %s known %s %s"
+                  % (f["id"], f["status"], viol2, f["properties"], "ok" if ok_a else "NOT SHOWN", viol, kn, "ok" if ok_b else "UNEXPECTED"), flush=True)
+            if not (ok_a and ok_b):
+                bad += 1
+        print("findings: %d of %d entries not demonstrated as recorded" % (bad, len(fs)))
+        return 0 if bad == 0 else 1
+    finally:
+        subprocess.run(["git", "-C", "/repo", "worktree", "remove", "--force", os.path.join(tmp, "wt")], stdout=subprocess.DEVNULL, stderr=subprocess.DEVNULL)
+        subprocess.run(["git", "-C", "/repo", "worktree", "prune"])
+        shutil.rmtree(tmp, ignore_errors=True)
+        shutil.rmtree(w, ignore_errors=True)
